@@ -644,6 +644,35 @@ Proof. induction h as [|o r IH]; intros s cur Hs. reflexivity.
       * f_equal. apply IH. reflexivity.
     + cbn [fst snd]. f_equal. apply IH. exact Hs. Qed.
 
+(* Processor level: over ANY configuration history (inputs, noise assignments, added components, filters, probs
+   calls, in any order) every probs() is answered from the circuit as it is at that moment and the polarised input
+   given last -- in particular a noise assignment after with_polarized_input does not touch the cached input *)
+Definition pinv (s : pproc R) (cur : option (pinput R)) : Prop :=
+  pp_input s = cur /\ pp_cache s = cur /\
+  (pp_sim s = None \/ pp_sim s = Some (cmat (pdouble (PSub (pp_m s) (pp_items s))))).
+Theorem processor_history (h : list (cop R)) : forall (s : pproc R) cur, pinv s cur ->
+  crun eqb s h = cspec eqb (pp_m s) (pp_items s) cur (pp_filter s) h.
+Proof. induction h as [|o r IH]; intros s cur [Hi [Hc Hs]]. reflexivity.
+  destruct o as [inp | | off c | k | ts]; cbn [crun cspec cstep fst snd].
+  - f_equal. apply (IH (mkpproc (pp_m s) (pp_items s) (Some inp) (Some inp) (pp_sim s) (pp_filter s)) (Some inp)).
+    repeat split; auto.
+  - f_equal. apply (IH (mkpproc (pp_m s) (pp_items s) (pp_input s) (if has_custom_input R s then pp_cache s else None) (pp_sim s) (pp_filter s)) cur).
+    repeat split; auto. cbn [pp_cache]. unfold has_custom_input. rewrite Hi, Hc. destruct cur; reflexivity.
+  - f_equal. apply (IH (mkpproc (pp_m s) (pp_items s ++ [(off, c)]) (pp_input s) (pp_cache s) None (pp_filter s)) cur).
+    repeat split; auto.
+  - f_equal. apply (IH (mkpproc (pp_m s) (pp_items s) (pp_input s) (pp_cache s) (pp_sim s) (Some k)) cur).
+    repeat split; auto.
+  - rewrite Hi. destruct cur as [inp|]; cbn [fst snd].
+    + rewrite Hc.
+      assert (EU : match pp_sim s with Some U => U | None => cmat (pdouble (PSub (pp_m s) (pp_items s))) end
+                   = cmat (pdouble (PSub (pp_m s) (pp_items s)))).
+      { destruct Hs as [-> | ->]; reflexivity. }
+      rewrite EU. f_equal.
+      apply (IH (mkpproc (pp_m s) (pp_items s) (Some inp) (Some inp) (Some (cmat (pdouble (PSub (pp_m s) (pp_items s)))))
+                         (Some match pp_filter s with Some k => k | None => nphotons inp end)) (Some inp)).
+      repeat split; auto.
+    + f_equal. apply IH. repeat split; auto. Qed.
+
 Theorem convert_vacuum (inp : pinput R) : no_photon inp = true ->
   convert_old eqb inp = ConvNoMatrix (repeat 0%nat (2 * length inp)).
 Proof. intros H. unfold convert_old.
